@@ -9,6 +9,15 @@ src = "%s%s/_seed" % (os.environ.get("WTPREFIX", "/tmp/wt_"), wt)
 dst = "/verif/seeded/%s" % name
 os.makedirs(dst, exist_ok=True)
 shutil.copy(os.path.join(src, "patch%s.diff" % k), os.path.join(dst, "patch.diff"))
+ported = os.environ.get("PORTED_PATCH")
+if ported:
+    # the patch as delivered no longer applies after a later fix: the same change carried over by hand to HEAD
+    shutil.copy(os.path.join(dst, "patch.diff"), os.path.join(dst, "patch_as_delivered.diff"))
+    shutil.copy(ported, os.path.join(dst, "patch.diff"))
+for helper in os.listdir(src):
+    # modules the demos import (common.py, crashlib.py)
+    if helper.endswith(".py") and not helper.startswith("demo"):
+        shutil.copy(os.path.join(src, helper), os.path.join(dst, helper))
 shutil.copy(os.path.join(src, "demo%s.py" % k), os.path.join(dst, "demo.py"))
 meta = json.load(open(os.path.join(src, "meta%s.json" % k)))
 conf = "/tmp/confirm%s_%s_%s.txt" % (os.environ.get("CONFTAG", ""), wt, k)
@@ -35,5 +44,9 @@ out = {
     "checks_run_against_it": {"repo_head": head, "how": "git -C /repo apply patch.diff; ./check <ID> --tier %s; git -C /repo checkout -- ." % tier, "results": results},
     "caught_by": [c for c, v in results.items() if v["exit"] == 1],
 }
+if ported:
+    out["note"] = "patch_as_delivered.diff did not apply to /repo HEAD after a later fix; patch.diff is the same change carried over by hand"
+if os.environ.get("SEED_NOTE"):
+    out["note"] = (out.get("note", "") + " " + os.environ["SEED_NOTE"]).strip()
 json.dump(out, open(os.path.join(dst, "meta.json"), "w"), indent=1)
 print(name, "caught_by", out["caught_by"], {c: v["exit"] for c, v in results.items()})
